@@ -303,7 +303,8 @@ def run_batch(batch_name, seed=0, keep=True, retry=True):
     res.update({
         'path': path, 'lines': text.count('\n'), 'wall_s': round(time.time() - t0, 2), 'verus_s': round(dt, 2),
         'verus_verified': vr.get('verified'), 'verus_errors': vr.get('errors'),
-        'fns': [{'label': f['label'], 'owners': f['owners'], 'ok': f['label'] not in bad_fns} for f in fns],
+        'fns': [{'label': f['label'], 'owners': f['owners'], 'ok': f['label'] not in bad_fns,
+                 'bad_props': sorted(set(p for e in real_errors if e['fn'] == f['label'] for p in e.get('props', [])))} for f in fns],
         'clauses': [dict(c, ok=not any(c['tag'] in e['tags'] and e['fn'] == c['fn'] for e in real_errors)) for c in clauses],
         'errors': real_errors, 'instability': instab,
         'canaries': {'total': len(canary_fns), 'failed_as_expected': len(canary_fns) - len(passing_canaries)},
